@@ -143,7 +143,7 @@ m("C17", "filter-wrong", CR, "            maps = maps[maps[\"CMapId\"].isin(mole
   "filters with 3+ ids also keep the largest id")
 # ---- C18
 m("C18", "confidence-one-decimal", XR, "            \"Confidence\": \"{:.2f}\".format(row.confidence),", "            \"Confidence\": \"{:.2f}\".format(row.confidence) if row.confidence < 30000 else \"{:.1f}\".format(row.confidence),",
-  "control: still reads back equal - expected to SURVIVE C18 (one decimal is still the written value)")
+  "confidences of 30000 and more written with one decimal (caught since C18 compares the value read back with the row handed to the writer)")
 m("C18", "reader-slices-last-pair", "src/parsers/xmap_alignment_pair_parser.py",
   "        alignmentPairStrings = alignment[:-1].replace('(', '').split(')')\n        reference = next(",
   "        alignmentPairStrings = alignment[:-1].replace('(', '').split(')')\n        alignmentPairStrings = alignmentPairStrings[:40]\n        reference = next(",
